@@ -117,7 +117,9 @@ def mesh_plane(
         # case where one vertex is on plane
         # and two are on different sides
         vertex_plane = faces[signs == 0]
-        edge_thru = faces[signs != 0].reshape((-1, 2))
+        # walk the edge from its lower to its higher vertex index, so that the two
+        # triangles sharing it compute a bit-identical intersection point
+        edge_thru = np.sort(faces[signs != 0].reshape((-1, 2)), axis=1)
         point_intersect, valid = plane_lines(
             plane_origin, plane_normal, vertices[edge_thru.T], line_segments=False
         )
@@ -143,6 +145,9 @@ def mesh_plane(
                 faces[np.roll(unique_element, 2, axis=1)],
             )
         ).reshape((-1, 2))
+        # walk every edge from its lower to its higher vertex index, so that the two
+        # triangles sharing it compute a bit-identical intersection point
+        edges.sort(axis=1)
         intersections, valid = plane_lines(
             plane_origin, plane_normal, vertices[edges.T], line_segments=False
         )
